@@ -50,7 +50,7 @@ Empty == [fetchT |-> {}, fetched |-> {}, proposed |-> {}, tried |-> {}, stored |
 S(d) == IF d \in DOMAIN st THEN st[d] ELSE Empty
 Upd(d, s) == st' = [x \in DOMAIN st \cup {d} |-> IF x = d THEN s ELSE st[x]]
 GFail(name) == FALSE                                   \* trace validation: records the name (overridden in the cfg)
-G(name, p) == (name \in Off) \/ p \/ GFail(name)
+G(name, p) == IF (name \in Off) \/ p THEN TRUE ELSE GFail(name)     \* (IF, not \/: TLC explores every disjunct of an action)
 
 Init == st = <<>> /\ open = <<>>
 
